@@ -264,3 +264,188 @@ Section ColumnCov.
                Fx G0 Gi0 Fx' G1 Gi1 HF HG col_ok HGi dt alpha p q Hok).
   Qed.
 End ColumnCov.
+
+(** ** explicit and implicit tendencies assembled over abstract horizontal
+    operators (Model/PrimEq.v, Section ModalAssembly), all four classes.
+    The horizontal operators of the second scale live on a sphere whose
+    non-dimensional radius differs: div', curl' = kg * div, curl and
+    lap' = kg^2 * lap; to_modal and clip do not depend on the radius.  Only
+    homogeneity / extensionality of the operators is assumed (they are linear
+    maps in the code), plus "lap kills the constant mode" for the log-pressure
+    shift.  This discharges the hypothesis [HF] of the step theorems up to
+    these operator laws. *)
+From Dino Require Import Model.PrimEq.
+
+Section ModalCov.
+  Context {F : Type} {o : Ops F} {Fc : FieldC o}.
+  Add Field FFmc : (field_c : FieldTh o).
+  Variables (ku kr kT kg kR : F).
+  Hypothesis H_rate : ku * kg = kr.
+  Hypothesis H_accel : kR * kT * kg = ku * kr.
+  Hypothesis feqb_iff : forall a b : F, feqb a b = true <-> a = b.
+  Hypothesis kT_nz : kT <> 0.
+  Hypothesis kR_nz : kR <> 0.
+
+  Variables W P : Type.
+  Variable toM : (P -> F) -> W -> F.
+  Variables divc curlc divc' curlc' : (W -> F) -> (W -> F) -> W -> F.
+  Variables lap lap' clip : (W -> F) -> W -> F.
+  Hypothesis toM_scal : forall k f w, toM (fun p => k * f p) w = k * toM f w.
+  Hypothesis toM_ext : forall f g, (forall p, f p = g p) -> forall w, toM f w = toM g w.
+  Hypothesis divc_scal : forall k a b w, divc (fun v => k * a v) (fun v => k * b v) w = k * divc a b w.
+  Hypothesis divc_ext : forall a a' b b', (forall v, a v = a' v) -> (forall v, b v = b' v) -> forall w, divc a b w = divc a' b' w.
+  Hypothesis curlc_scal : forall k a b w, curlc (fun v => k * a v) (fun v => k * b v) w = k * curlc a b w.
+  Hypothesis curlc_ext : forall a a' b b', (forall v, a v = a' v) -> (forall v, b v = b' v) -> forall w, curlc a b w = curlc a' b' w.
+  Hypothesis lap_scal : forall k a w, lap (fun v => k * a v) w = k * lap a w.
+  Hypothesis lap_ext : forall a a', (forall v, a v = a' v) -> forall w, lap a w = lap a' w.
+  Hypothesis clip_scal : forall k a w, clip (fun v => k * a v) w = k * clip a w.
+  Hypothesis clip_ext : forall a a', (forall v, a v = a' v) -> forall w, clip a w = clip a' w.
+  Hypothesis divc'_def : forall a b w, divc' a b w = kg * divc a b w.
+  Hypothesis curlc'_def : forall a b w, curlc' a b w = kg * curlc a b w.
+  Hypothesis lap'_def : forall a w, lap' a w = kg * kg * lap a w.
+
+  Variable c : @PEcfg F.
+  Hypothesis R_nz : cR c <> 0.
+  Notation c' := (scale_cfg kT kR c).
+  Variable X : P -> @NCol F.
+  Notation X' := (fun p => scale_ncol ku kr kT kg (X p)).
+
+  Lemma toM_scaled k (f f' : P -> F) w : (forall p, f' p = k * f p) -> toM f' w = k * toM f w.
+  Proof. intros H. rewrite (toM_ext f' (fun p => k * f p) H). apply toM_scal. Qed.
+
+  Lemma divc'_scaled k (a a' b b' : W -> F) w :
+    (forall v, a' v = k * a v) -> (forall v, b' v = k * b v) -> divc' a' b' w = kg * k * divc a b w.
+  Proof. intros Ha Hb. rewrite divc'_def, (divc_ext a' _ b' _ Ha Hb), divc_scal. ring. Qed.
+  Lemma curlc'_scaled k (a a' b b' : W -> F) w :
+    (forall v, a' v = k * a v) -> (forall v, b' v = k * b v) -> curlc' a' b' w = kg * k * curlc a b w.
+  Proof. intros Ha Hb. rewrite curlc'_def, (curlc_ext a' _ b' _ Ha Hb), curlc_scal. ring. Qed.
+  Lemma lap'_scaled k (a a' : W -> F) w : (forall v, a' v = k * a v) -> lap' a' w = kg * kg * k * lap a w.
+  Proof. intros Ha. rewrite lap'_def, (lap_ext a' _ Ha), lap_scal. ring. Qed.
+  Lemma clip_scaled k (a a' : W -> F) w : (forall v, a' v = k * a v) -> clip a' w = k * clip a w.
+  Proof. intros Ha. rewrite (clip_ext a' _ Ha). apply clip_scal. Qed.
+
+  (** temperature, dry: Theta / T *)
+  Theorem temp_tendency_explicit_covariant r w :
+    temp_tendency_explicit W P toM divc' clip c' X' r w = kT * kr * temp_tendency_explicit W P toM divc clip c X r w.
+  Proof.
+    unfold temp_tendency_explicit. apply clip_scaled. intros v.
+    rewrite (toM_scaled (kT * kr) (fun p => temp_nodal_total c true (X p) r)).
+    2:{ intros p. exact (temp_nodal_total_homogeneous ku kr kT kg kR H_rate H_accel c feqb_iff kT_nz true (X p) r). }
+    rewrite (divc'_scaled (ku * kT) (toM (fun p => hsa_mu (X p) (n_temp (X p)) r)) _ (toM (fun p => hsa_mv (X p) (n_temp (X p)) r))).
+    2,3: intros v'; apply toM_scaled; intros p; apply (hsa_homogeneous ku kr kT kg kT (X p) (n_temp (X p)) r).
+    rewrite <- H_rate. ring.
+  Qed.
+
+  (** divergence (any [rt] of dimension L^2/T^2, orography in L, g in L/T^2, humidity correction in 1/T^2): 1 / T^2 *)
+  Theorem div_tendency_explicit_covariant (rt rt' : P -> nat -> F) (orog orog' hum hum' : W -> F) (grav kL : F) r w :
+    kL * kg = 1 ->
+    (forall p j, rt' p j = kR * kT * rt p j) -> (forall v, orog' v = kL * orog v) -> (forall v, hum' v = kr * kr * hum v) ->
+    div_tendency_explicit W P toM divc' lap' clip c' (ku * kr * grav) X' rt' orog' hum' r w
+      = kr * kr * div_tendency_explicit W P toM divc lap clip c grav X rt orog hum r w.
+  Proof.
+    intros HL Hrt Horo Hhum. unfold div_tendency_explicit. apply clip_scaled. intros v.
+    rewrite (divc'_scaled (ku * kr) (toM (fun p => combined_u c true (X p) (rt p) r)) _ (toM (fun p => combined_v c true (X p) (rt p) r))).
+    2:{ intros v'; apply toM_scaled; intros p. exact (proj1 (combined_uv_scal ku kr kT kg kR H_rate H_accel c true (X p) (rt p) (rt' p) r (Hrt p))). }
+    2:{ intros v'; apply toM_scaled; intros p. exact (proj2 (combined_uv_scal ku kr kT kg kR H_rate H_accel c true (X p) (rt p) (rt' p) r (Hrt p))). }
+    rewrite (lap'_scaled (ku * ku) (toM (fun p => kinetic (X p) r))).
+    2:{ intros v'; apply toM_scaled; intros p. apply kinetic_homogeneous. }
+    rewrite (lap'_scaled kL orog orog' v Horo), Hhum.
+    transitivity ((ku * kg) * kr * (- divc (toM (fun p => combined_u c true (X p) (rt p) r)) (toM (fun p => combined_v c true (X p) (rt p) r)) v)
+                  + (ku * kg) * (ku * kg) * (- lap (toM (fun p => kinetic (X p) r)) v)
+                  + (ku * kg) * kr * (kL * kg) * (- grav * lap orog v) + kr * kr * hum v); [ring|].
+    rewrite H_rate, HL. ring.
+  Qed.
+
+  (** vorticity: 1 / T^2 *)
+  Theorem vort_tendency_explicit_covariant (rt rt' : P -> nat -> F) (hum hum' : W -> F) r w :
+    (forall p j, rt' p j = kR * kT * rt p j) -> (forall v, hum' v = kr * kr * hum v) ->
+    vort_tendency_explicit W P toM curlc' clip c' X' rt' hum' r w
+      = kr * kr * vort_tendency_explicit W P toM curlc clip c X rt hum r w.
+  Proof.
+    intros Hrt Hhum. unfold vort_tendency_explicit. apply clip_scaled. intros v.
+    rewrite (curlc'_scaled (ku * kr) (toM (fun p => combined_u c true (X p) (rt p) r)) _ (toM (fun p => combined_v c true (X p) (rt p) r))).
+    2:{ intros v'; apply toM_scaled; intros p. exact (proj1 (combined_uv_scal ku kr kT kg kR H_rate H_accel c true (X p) (rt p) (rt' p) r (Hrt p))). }
+    2:{ intros v'; apply toM_scaled; intros p. exact (proj2 (combined_uv_scal ku kr kT kg kR H_rate H_accel c true (X p) (rt p) (rt' p) r (Hrt p))). }
+    rewrite Hhum. rewrite <- H_rate. ring.
+  Qed.
+
+  (** moist classes *)
+  Variable m : @Moist F.
+  Notation m' := (scale_moist kR m).
+  Hypothesis kappa_nz : ckappa c <> 0.
+
+  Theorem temp_tendency_explicit_moist_covariant (q : P -> nat -> F) r w :
+    temp_tendency_explicit_moist W P toM divc' clip c' m' X' q r w
+      = kT * kr * temp_tendency_explicit_moist W P toM divc clip c m X q r w.
+  Proof.
+    unfold temp_tendency_explicit_moist. apply clip_scaled. intros v.
+    rewrite (toM_scaled (kT * kr) (fun p => temp_nodal_total_moist c true m (X p) (q p) r)).
+    2:{ intros p. exact (temp_nodal_total_moist_homogeneous ku kr kT kg kR H_rate H_accel c feqb_iff kT_nz kR_nz R_nz m true (X p) (q p) r kappa_nz). }
+    rewrite (divc'_scaled (ku * kT) (toM (fun p => hsa_mu (X p) (n_temp (X p)) r)) _ (toM (fun p => hsa_mv (X p) (n_temp (X p)) r))).
+    2,3: intros v'; apply toM_scaled; intros p; apply (hsa_homogeneous ku kr kT kg kT (X p) (n_temp (X p)) r).
+    rewrite <- H_rate. ring.
+  Qed.
+
+  (** divergence_tendency_due_to_humidity and vorticity_tendency_due_to_humidity: 1 / T^2 *)
+  Theorem humidity_modal_covariant (q gqx gqy : P -> nat -> F) (lapn : P -> F) r w :
+    (r < cK c)%nat ->
+    humidity_div_modal W P toM lap' c' m' X' q (fun p => scol kg (gqx p)) (fun p => scol kg (gqy p)) (fun p => kg * kg * lapn p) r w
+      = kr * kr * humidity_div_modal W P toM lap c m X q gqx gqy lapn r w /\
+    humidity_curl_modal W P toM c' m' X' (fun p => scol kg (gqx p)) (fun p => scol kg (gqy p)) r w
+      = kr * kr * humidity_curl_modal W P toM c m X gqx gqy r w.
+  Proof.
+    intros Hr.
+    assert (E : kT * kR * (kg * kg) = kr * kr).
+    { transitivity (kR * kT * kg * kg); [ring|]. rewrite H_accel, <- H_rate. ring. }
+    assert (E2 : kg * kg * (kR * kT) = kr * kr) by (rewrite <- E; ring).
+    split.
+    - unfold humidity_div_modal.
+      rewrite (lap'_scaled (kR * kT) (toM (fun p => humidity_geo_nodal c false m (X p) (q p) r))).
+      2:{ intros v; apply toM_scaled; intros p.
+          exact (proj2 (proj2 (humidity_terms_homogeneous ku kr kT kg kR c kR_nz R_nz m false (X p) (q p) (gqx p) (gqy p) (lapn p) r Hr))). }
+      rewrite (toM_scaled (kT * kR * (kg * kg)) (fun p => humidity_div_nodal c m (X p) (q p) (gqx p) (gqy p) (lapn p) r)).
+      2:{ intros p. exact (proj1 (humidity_terms_homogeneous ku kr kT kg kR c kR_nz R_nz m false (X p) (q p) (gqx p) (gqy p) (lapn p) r Hr)). }
+      rewrite E, E2. ring.
+    - unfold humidity_curl_modal.
+      rewrite (toM_scaled (kT * kR * (kg * kg)) (fun p => humidity_curl_nodal c m (X p) (gqx p) (gqy p) r)).
+      2:{ intros p. exact (proj1 (proj2 (humidity_terms_homogeneous ku kr kT kg kR c kR_nz R_nz m false (X p) (fun _ => 0) (gqx p) (gqy p) 0 r Hr))). }
+      now rewrite E.
+  Qed.
+
+
+  Lemma geo_dense_Tm (Tm Tm' : nat -> W -> F) r v :
+    (forall k v, Tm' k v = kT * Tm k v) ->
+    Sigma.geo_diff_dense (cK c) (kR * cR c) (cls c) (fun k => Tm' k v) r
+    = kR * kT * Sigma.geo_diff_dense (cK c) (cR c) (cls c) (fun k => Tm k v) r.
+  Proof.
+    intros H. rewrite <- (geo_diff_dense_homogeneous (cK c) (cR c) (cls c) (fun k => Tm k v) kR kT r).
+    unfold Sigma.geo_diff_dense. apply sumn_ext. intros k _. unfold scol. now rewrite H.
+  Qed.
+
+  (** implicit terms at the modal layer: Theta / T and 1 / T^2; the log-pressure
+      shift [shift * e] ([e] = the constant mode) is annihilated by the Laplacian *)
+  Hypothesis lap_add : forall a b w, lap (fun v => a v + b v) w = lap a w + lap b w.
+
+  Theorem implicit_tendencies_covariant (dv dv' Tm Tm' : nat -> W -> F) (lnps lnps' e : W -> F) shift r w :
+    (forall k v, dv' k v = kr * dv k v) -> (forall k v, Tm' k v = kT * Tm k v) ->
+    (forall v, lnps' v = lnps v + shift * e v) -> (forall v, lap e v = 0) ->
+    temp_tendency_implicit W c' dv' r w = kT * kr * temp_tendency_implicit W c dv r w /\
+    div_tendency_implicit W lap' c' Tm' lnps' r w = kr * kr * div_tendency_implicit W lap c Tm lnps r w.
+  Proof.
+    intros Hdv HTm Hl He. split.
+    - unfold temp_tendency_implicit, temp_implicit_col, temp_implicit_dense, matvec, neg_temp_weights.
+      cbn [Scaling.scale_cfg cK].
+      rewrite (sumn_ext (cK c) _ (fun h => kT * kr * (- temp_weights c r h * dv h w))).
+      + now rewrite sumn_scal_l.
+      + intros h _. rewrite temp_weights_homogeneous, Hdv. ring.
+    - unfold div_tendency_implicit.
+      assert (E : kg * kg * (kR * kT) = kr * kr).
+      { transitivity (kR * kT * kg * kg); [ring|]. rewrite H_accel, <- H_rate. ring. }
+      set (pot := fun v => div_implicit_potential c false (fun k => Tm k v) (lnps v) r).
+      rewrite lap'_def.
+      rewrite (lap_ext _ (fun v => kR * kT * pot v + (kR * cR c * (kT * cTref c r) * shift) * e v)).
+      2:{ intros v. unfold pot, div_implicit_potential, geo_diff. cbn [Scaling.scale_cfg cK cR cls cTref]. unfold scol.
+          rewrite (geo_dense_Tm Tm Tm' r v HTm), Hl. ring. }
+      rewrite lap_add, !lap_scal, He. fold pot. rewrite <- E. ring.
+  Qed.
+End ModalCov.
